@@ -64,6 +64,9 @@ def p_expr(e, top=False):
     if k == "and":
         return "&" + p_group(e[1])
     if k == "sup":
+        if e[1][0] in ("star", "plus", "opt", "unord"):
+            # the suppression operator follows the repetition operator directly: 'x'+-
+            return p_expr(e[1]) + "-"
         return p_group(e[1]) + "-"
     if k == "asg":
         _, attr, op, rhs, sep, eol = e
@@ -270,7 +273,15 @@ def items(draw, ctx, depth, in_rep=False):
     if choice == 15:
         return [draw(st.sampled_from(["not", "and"])), draw(match_atom(ctx))]
     if choice == 16:
-        return ["sup", draw(st.one_of(literals(), match_atom(ctx)))]
+        inner = draw(st.one_of(literals(), match_atom(ctx)))
+        shape = draw(st.integers(0, 9))
+        if shape == 0 and not in_rep:
+            inner = [draw(st.sampled_from(["star", "plus"])), inner, draw(seps()), False]
+        elif shape == 1:
+            inner = ["opt", inner]
+        elif shape == 2 and not in_rep:
+            inner = ["unord", [inner, draw(literals())], None]
+        return ["sup", inner]
     if choice == 17:
         m = ctx.later({"match"})
         if m:
@@ -348,6 +359,11 @@ def abstract_bodies(draw, ctx):
             # nested choice inside a sequence: ('kw' | Common) Common
             alts.append(["seq", [["alt", [draw(literals()), ["ref", draw(st.sampled_from(nonmatch))]]],
                                  ["ref", draw(st.sampled_from(nonmatch))]]])
+        elif kind == 5 and i > 0 and ctx.idx > 0 and draw(st.booleans()):
+            # cycle of abstract rules: a guarded reference back to an earlier rule or to this rule
+            back = draw(st.sampled_from(ctx.names[1: ctx.idx + 1]))
+            alts.append(["seq", [["str", draw(st.sampled_from(["(", "{", "begin"]))], ["ref", back],
+                                 ["str", draw(st.sampled_from([")", "}", "end"]))]]])
         else:
             alts.append(["seq", [["ref", draw(st.sampled_from(match))], draw(literals())]])
     if nonmatch and not any(e[0] == "ref" and e[1] in nonmatch for a in alts for e in walk(a)):
@@ -375,12 +391,13 @@ def match_bodies(draw, ctx):
 
 
 @st.composite
-def grammars(draw, max_rules=6, modifiers=True, comments=True, eolterm=True, allow_known=False):
-    n = draw(st.integers(1, max_rules))
+def grammars(draw, max_rules=6, modifiers=True, comments=True, eolterm=True, allow_known=False, kind_pool=None,
+             min_rules=1):
+    n = draw(st.integers(min_rules, max_rules))
     names = [f"R{i}" for i in range(n)]
     kinds = ["common"]
     for i in range(1, n):
-        kinds.append(draw(st.sampled_from(["common", "common", "abstract", "match", "match"])))
+        kinds.append(draw(st.sampled_from(kind_pool or ["common", "common", "abstract", "match", "match"])))
     # an abstract rule needs a later non-match rule; otherwise it becomes common
     for i in range(n):
         if kinds[i] == "abstract" and not any(kinds[j] in ("common",) for j in range(i + 1, n)):
